@@ -228,6 +228,8 @@ pub fn scenarios(thorough: bool) -> Vec<Scenario> {
         d.extend(vec![json!({"l♭":[{"_id":"x","v":1,"n♭":[{"_id":"z","v":1}]},{"_id":"y","v":1}]}), json!({"l♭":[]}), json!({})]);
         d
     }, if thorough { 3 } else { 2 }, &[Op::Unstage(0), Op::Snapshot(0)]));
+    // one branch has a two-digit revision index, the other a one-digit one
+    v.push(long_chain_scenario("pair-long-chain", if thorough { 3 } else { 2 }, &[]));
     // the same edit script twice in a row (delete the head twice, with the elements moved to m♭)
     v.push(single_scenario("single-move", vec![
         json!({"l♭":[z(), x()], "m♭":[]}),
